@@ -225,6 +225,7 @@ func cRunToCompletion(e *Env, s *Sched, rule string) {
 		return g, walks[g].OK
 	}
 	var finished *ssa.Function
+	var splitWalk []string
 	nExit := 0
 	for _, b := range sortedBlocks(poll.Blocks) {
 		for _, sb := range b.Succs {
@@ -275,6 +276,12 @@ func cRunToCompletion(e *Env, s *Sched, rule string) {
 						}
 					}
 					if all {
+						// a helper that walks the nodes itself and then asks a second walker
+						// (`for … { if status == None { return false } }; return !g.IsRunning()`)
+						// answers from two looks at the nodes that are not one snapshot
+						if h := c.Call.StaticCallee(); len(ir.Loops(h)) > 0 && finished != nil && finished != h {
+							splitWalk = append(splitWalk, shortName(h)+" walks the nodes and then asks "+shortName(finished))
+						}
 						return true
 					}
 				}
@@ -291,6 +298,10 @@ func cRunToCompletion(e *Env, s *Sched, rule string) {
 	if finished == nil {
 		r.Bad("end-of-run test: the walk over the nodes an exit of the polling loop consults", e.Pos(fn.Pos()), "no exit of the polling loop tests a boolean function of the graph that walks its nodes")
 		return
+	}
+	if len(splitWalk) > 0 {
+		r.Bad("end-of-run test: answered from one walk over the nodes", e.Pos(fn.Pos()),
+			"the end-of-run test looks at the nodes twice (first for steps that are waiting, then for steps that are running): a worker that hands a failed step back for its retry between the two looks (running -> not started) is seen by neither, the scheduling loop ends, and the step is never relaunched although attempts are left", splitWalk...)
 	}
 	w := walks[finished]
 	r.Check(w.AllNodes, "end-of-run test: walks all nodes of the graph", e.Pos(w.Fn.Pos()), "the end-of-run test does not look at every node")
